@@ -155,6 +155,14 @@ SUITES["struct3n0"] = {
     "kinds": [1, 2, 3, 4, 5, 6], "depth": {"quick": 3, "thorough": 6}, "maxid": 8,
     "design_depth": {"quick": 2, "thorough": 4},
 }
+# the 4-node seed shapes (division, skip edge, grandchild ...) with node ids starting at 0
+SUITES["struct4n0"] = {
+    "tla": SUITES["struct4s"]["tla"],
+    "cfg": {"N": 4, "T": 3, "dims": [], "scale": [], "use_scale": True, "reg_cust": False, "per_axis_pos": False,
+            "name": "struct4n0", "node_shift": 1},
+    "kinds": [1, 2, 3, 4, 5, 6], "seeds": "SeedsStruct4s", "depth": {"quick": 0, "thorough": 2}, "maxid": 9,
+    "design_depth": {"quick": -1, "thorough": -1}, "sample": {"quick": 400, "thorough": 6000},
+}
 # feature switching
 SUITES["featns"] = {
     "tla": SUITES["struct3"]["tla"],
